@@ -653,10 +653,13 @@ class DFS:
     switching away from a thread that could continue costs 1, switches at
     blocking points are free."""
 
+    BRANCH_DEPTH = 3000
+
     def __init__(self, bound, max_runs=10 ** 9):
         self.bound = bound
         self.max_runs = max_runs
         self.runs = 0
+        self.steplimit_runs = 0
         self.complete = False
 
     def explore(self, run_once):
@@ -677,8 +680,22 @@ class DFS:
                 return en[c]
             res = run_once(ch)
             self.runs += 1
+            if isinstance(res, dict) and res.get('steplimit'):
+                # an execution that did not end within the step bound (a
+                # polling loop that cannot make progress) is inconclusive by
+                # itself; branching off its thousands of choice points would
+                # only produce more of the same, each as long
+                self.steplimit_runs += 1
+                yield res
+                if self.steplimit_runs >= 3:
+                    return
+                continue
             used = 0
-            for i, (k, c, d, pre) in enumerate(trace):
+            # (alternatives are branched off within the first BRANCH_DEPTH
+            # choice points only: an execution that polls - a wait with a
+            # timeout in a loop - has hundreds of thousands of choice points,
+            # and one stored prefix per choice point is quadratic in memory)
+            for i, (k, c, d, pre) in enumerate(trace[:self.BRANCH_DEPTH]):
                 if i >= len(prefix):
                     for alt in range(k):
                         if alt == c:
